@@ -555,12 +555,16 @@ def r5_scheduler_row(ctx: Context) -> None:
         if col.kind != "expr":
             raise AnalysisError("SCHEDULER_FINISHED count column is not an expression")
         e = col.expr
+        key = f"{qualname(h)}|{name}"
+        tally = _tally_formula(h, e.id) if isinstance(e, ast.Name) else None
+        if tally is not None:
+            _check_count(ctx, key, name, want_placed, tally, col)
+            continue
         if isinstance(e, ast.Name):
             defs = [n for n in ast.walk(h) if isinstance(n, ast.Assign) and any(isinstance(t, ast.Name) and t.id == e.id for t in n.targets)]
             if len(defs) != 1:
                 raise AnalysisError(f"{e.id} defined {len(defs)} times")
             e = defs[0].value
-        key = f"{qualname(h)}|{name}"
         # constant-zero difference
         for b in [x for x in ast.walk(e) if isinstance(x, ast.BinOp) and isinstance(x.op, ast.Sub)]:
             l, r = b.left, b.right
@@ -586,14 +590,7 @@ def r5_scheduler_row(ctx: Context) -> None:
             if not preds:
                 raise AnalysisError(f"no counting predicate found for {name}: `{norm(e)[:60]}`")
             f = ("and", [_placed_formula(p) for p in preds])
-        placed_atom = ("atom", ("bool", "P.is_placed()"), True)
-        type_atom = ("atom", ("bool", "P.placement_type == PLACE_TASK"), True)
-        want = placed_atom if want_placed else lin.f_not(placed_atom)
-        ctx.check(lin.entails(f, want) and lin.satisfiable(f), "C08.R5", key + ("|counts placed" if want_placed else "|counts not placed"), loc(col.expr),
-                  lin.show(f), f"{name} counts decisions satisfying `{lin.show(f)}`, which does not imply "
-                  f"{'placed' if want_placed else 'not placed'}")
-        ctx.check(lin.entails(f, type_atom), "C08.R5", key + "|only task placements", loc(col.expr), "PLACE_TASK only",
-                  f"{name} also counts non-PLACE_TASK placements (profile loads / cancellations)")
+        _check_count(ctx, key, name, want_placed, f, col)
     # offered count in SCHEDULER_START comes from get_schedulable_tasks with the scheduler's own settings
     hs = sim.handler("SCHEDULER_START")
     gs = [c for c in calls_in(hs, "get_schedulable_tasks")]
@@ -603,6 +600,69 @@ def r5_scheduler_row(ctx: Context) -> None:
             "self._scheduler.release_taskgraphs"]
     ctx.check(all(n in args for n in need), "C08.R5", f"{qualname(hs)}|offered count uses the scheduler's settings", loc(gs[0]),
               "same arguments as the policy's frontier", f"offered-task count is computed with `{args[:100]}`")
+
+
+def _check_count(ctx: Context, key: str, name: str, want_placed: bool, f, col) -> None:
+    placed_atom = ("atom", ("bool", "P.is_placed()"), True)
+    type_atom = ("atom", ("bool", "P.placement_type == PLACE_TASK"), True)
+    want = placed_atom if want_placed else lin.f_not(placed_atom)
+    ctx.check(lin.entails(f, want) and lin.satisfiable(f), "C08.R5", key + ("|counts placed" if want_placed else "|counts not placed"), loc(col.expr),
+              lin.show(f), f"{name} counts decisions satisfying `{lin.show(f)}`, which does not imply "
+              f"{'placed' if want_placed else 'not placed'}")
+    ctx.check(lin.entails(f, type_atom), "C08.R5", key + "|only task placements", loc(col.expr), "PLACE_TASK only",
+              f"{name} also counts non-PLACE_TASK placements (profile loads / cancellations)")
+
+
+def _tally_formula(h: ast.FunctionDef, name: str):
+    """`name = 0` then `name += 1` inside a loop over the decisions: the formula under which one decision is counted (the disjunction, over
+    the increments, of the decisions that control each), or None when `name` is not such a tally."""
+    inits, incs, other = [], [], 0
+    for n in ast.walk(h):
+        if isinstance(n, ast.Assign):
+            for t in n.targets:
+                if isinstance(t, ast.Name) and t.id == name:
+                    if isinstance(n.value, ast.Constant) and n.value.value == 0 and not isinstance(n.value.value, bool):
+                        inits.append(n)
+                    else:
+                        other += 1
+                elif isinstance(t, ast.Tuple) and isinstance(n.value, ast.Tuple) and len(t.elts) == len(n.value.elts):
+                    for te, ve in zip(t.elts, n.value.elts):
+                        if isinstance(te, ast.Name) and te.id == name:
+                            if isinstance(ve, ast.Constant) and ve.value == 0:
+                                inits.append(n)
+                            else:
+                                other += 1
+                elif any(isinstance(x, ast.Name) and x.id == name for x in ast.walk(t)):
+                    other += 1
+        elif isinstance(n, ast.AugAssign) and isinstance(n.target, ast.Name) and n.target.id == name:
+            if isinstance(n.op, ast.Add) and isinstance(n.value, ast.Constant) and n.value.value == 1:
+                incs.append(n)
+            else:
+                other += 1
+        elif isinstance(n, (ast.For, ast.comprehension)) and any(isinstance(x, ast.Name) and x.id == name for x in ast.walk(n.target)):
+            other += 1
+    if len(inits) != 1 or not incs or other:
+        return None
+    g = cfgmod.build(h)
+    arms = []
+    for inc in incs:
+        loop = parent(inc)
+        while loop is not None and not isinstance(loop, ast.For):
+            loop = parent(loop)
+        if loop is None or not isinstance(loop.target, ast.Name):
+            return None
+        var = loop.target.id
+        node = g.node_of(inc)
+        conj = []
+        for t in g.nodes:
+            if t.kind != "test" or not any(isinstance(x, ast.Name) and x.id == var for x in ast.walk(t.ast)):
+                continue
+            if g.edge_dominates(t, "T", node):
+                conj.append(_placed_formula(t.ast))
+            elif g.edge_dominates(t, "F", node):
+                conj.append(lin.f_not(_placed_formula(t.ast)))
+        arms.append(("and", conj) if conj else ("const", True))
+    return arms[0] if len(arms) == 1 else ("or", arms)
 
 
 def _inline_names(fn: ast.FunctionDef, e: ast.AST) -> ast.AST:
